@@ -21,14 +21,33 @@ LEVEL = "exploration"
 RULE = (
     "Invocations of `python -m jasm.main` in a scratch working directory: rule/listing pairs from the broadest generator (with the shipped macros), macro rules from the C13 "
     "factoring generator with their definitions in 1-2 extra macro files whose file names are drawn (so alphabetical order and given order differ), and generated ELF objects "
-    "with -b; crossed with --all-matches, --return_only_address, --macros, in shuffled argument order; plus usage errors (no -p; neither / both of -s and -b) and failing "
+    "with -b; crossed with --all-matches, --return_only_address, --macros, in shuffled argument order, every option written short / long / long with '=' / as an unambiguous "
+    "abbreviation, with 0-2 of the remaining options (--debug, --info, the two logging switches, --dissasemble-program=objdump) that must not change what is reported, through "
+    "`python -m jasm.main` or the installed console script; plus usage errors (no -p; neither / both of -s and -b) and failing "
     "operations (input missing, -b on a non-object, wrongly typed config, undefined macro). Oracle: the library API with the equivalent MatchConfig in list mode: 'RESULT: "
     "Pattern found' iff the API list is non-empty; the sequence of 'Matched address:' payloads equals the API list; exit status 0 iff the API did not raise; usage errors exit 2; "
     "nothing is reported after an error. Non-trivial: >= 2 matches, or macro files needed, or a failing/usage case; distinct by canonical hash."
 )
 ASSUMPTIONS = ["the CLI logs to stderr at INFO level by default (as shipped); 'Matched address: X' lines carry the API's list elements verbatim"]
-FLOORS = {"macro-files-not-in-alphabetical-order": 0.03, "kind=match": 0.5, "kind=failing": 0.08, "kind=usage": 0.03, "opt=all-matches": 0.25, "opt=only-address": 0.25, "macro-files": 0.15, "binary": 0.08}
+FLOORS = {"macro-files-not-in-alphabetical-order": 0.03, "kind=match": 0.5, "kind=failing": 0.08, "kind=usage": 0.03, "opt=all-matches": 0.25, "opt=only-address": 0.25, "macro-files": 0.15, "binary": 0.08, "extra=debug": 0.05, "opt-spelling=abbrev": 0.1, "opt-spelling=long": 0.2, "entry=console-script": 0.1}
 LINE = re.compile(r"Matched address: (.*)$")  # any line, whatever logger format it is printed in: the statement counts lines
+
+
+EXTRA_OPTIONS = ["--debug", "--info", "--enable_logging_to_file", "--enable_logging_to_terminal", "--dissasemble-program=objdump"]
+SPELLINGS = {
+    "-p": [["-p", "{}"], ["--pattern", "{}"], ["--pattern={}"], ["--pat", "{}"]],
+    "-s": [["-s", "{}"], ["--assembly", "{}"], ["--assembly={}"], ["--assem", "{}"]],
+    "-b": [["-b", "{}"], ["--binary", "{}"], ["--binary={}"], ["--bin", "{}"]],
+    "--all-matches": [["--all-matches"], ["--all-matches"], ["--all"], ["--all-m"]],
+    "--return_only_address": [["--return_only_address"], ["--return_only_address"], ["--return"], ["--return_only"]],
+}
+
+
+def spell(group, n):
+    """One way of writing an option group; n selects it (0 = as in the documentation)."""
+    alts = SPELLINGS[group[0]]
+    alt = alts[n % len(alts)]
+    return [a.format(*group[1:]) for a in alt], n % len(alts)
 
 
 def budget(tier):
@@ -39,6 +58,11 @@ def budget(tier):
 def cases(draw):
     kind = draw(st.sampled_from(["match"] * 8 + ["failing", "failing", "usage"]))
     opts = {"all": draw(st.booleans()), "only_addr": draw(st.booleans()), "order": draw(st.integers(0, 10**6))}
+    # how the options are written: short / long / long with '=' / an unambiguous abbreviation (argparse accepts all four), further
+    # options that must not change what is reported, and the entry point (python -m jasm.main or the installed console script)
+    opts["spell"] = draw(st.integers(0, 10**6))
+    opts["extras"] = draw(st.lists(st.sampled_from(EXTRA_OPTIONS), max_size=2, unique=True))
+    opts["entry"] = draw(st.sampled_from(["module", "module", "module", "script"]))
     if kind == "usage":
         return {"kind": kind, "usage": draw(st.sampled_from(["no-pattern", "no-input", "both-inputs", "unknown-option"])), "opts": opts}
     src = draw(st.sampled_from(["broad", "broad", "macro-files", "macro-files", "binary"]))
@@ -210,6 +234,19 @@ def evaluate(case):
     if opts["only_addr"]:
         groups.append(["--return_only_address"])
         ev.tags.append("opt=only-address")
+    sp = opts.get("spell", 0)
+    spelled = []
+    for grp in groups:
+        # a path that starts with '-' cannot follow its option as a separate word; such paths are not generated
+        words, which = spell(grp, sp)
+        sp //= 5
+        spelled.append(words)
+        if which:
+            ev.tags.append("opt-spelling=" + ("long", "long", "abbrev-or-eq", "abbrev")[which])
+    for x in opts.get("extras", []):
+        spelled.append([x])
+        ev.tags.append("extra=" + x.lstrip("-").split("=")[0])
+    groups = spelled
     order = opts["order"]
     args = []
     g = list(groups)
@@ -219,7 +256,10 @@ def evaluate(case):
     if macros:
         # --macros takes nargs='+': keep it last so that it cannot swallow other arguments
         args += ["--macros", *macros]
-    rc, out, err = jasm_io.cli(args, cwd, env_extra={"PATH": path_override} if path_override is not None else None)
+    entry = opts.get("entry", "module")
+    if entry == "script":
+        ev.tags.append("entry=console-script")
+    rc, out, err = jasm_io.cli(args, cwd, env_extra={"PATH": path_override} if path_override is not None else None, entry=entry)
     ev.subcases = 2
     reported = [m.group(1) for ln in err.split("\n") for m in [LINE.search(ln)] if m]
     found_line = "RESULT: Pattern found" in err
